@@ -60,6 +60,30 @@ Proof.
   unfold info_eqv, info_of. cbn. repeat split; auto. now apply parent_name_fields.
 Qed.
 
+(* an update that is admitted unchecked keeps the two exempting labels (they are among the
+   compared fields since the repair of findings/C15-unchecked-flag-drop.md) *)
+Definition flag_stable_op (w : op) : bool :=
+  match w with
+  | Update o n => negb (fields_eq o n)
+                  || (Bool.eqb (q_force o) (q_force n) && Bool.eqb (q_tree_root o) (q_tree_root n))
+  | _ => true
+  end.
+Definition flag_stable_ev (e : event) : bool :=
+  match e with EReq r => flag_stable_op (snd r) | EInf r => flag_stable_op (snd r) end.
+
+Lemma flag_stable_op_true w : flag_stable_op w = true.
+Proof.
+  destruct w as [q|o n|q]; cbn [flag_stable_op]; try reflexivity.
+  destruct (fields_eq o n) eqn:FE; [|reflexivity]. cbn [negb orb].
+  unfold fields_eq in FE. apply andb_true_iff in FE. destruct FE as [FE R].
+  apply andb_true_iff in FE. destruct FE as [_ F]. now rewrite F, R.
+Qed.
+
+Lemma flag_stable_all es : forallb flag_stable_ev es = true.
+Proof.
+  apply forallb_forall. intros e _. destruct e; cbn [flag_stable_ev]; apply flag_stable_op_true.
+Qed.
+
 Lemma flag_stable_facts o n : flag_stable_op (Update o n) = true -> fields_eq o n = true ->
   q_force o = q_force n /\ q_tree_root o = q_tree_root n.
 Proof.
